@@ -1,5 +1,6 @@
 import NibabelModel.Model.C12
 import NibabelModel.Generated.C12FileTypes
+import NibabelModel.Generated.C12Funcs
 import Driver.Util
 /-! Line-protocol driver for C12: `C12 <op> <args...>` -> one observable line.
     Strings travel percent-encoded (UTF-8 bytes; safe = alnum and `_.-~/`) with a leading `=`. -/
@@ -148,7 +149,113 @@ def parseWOp? (t : String) : Option WOp :=
   | 's' :: r => (String.ofList r).toNat?.map WOp.seekTo
   | _ => none
 
+/-! ### stage T: values of the translated fragment on the wire (`gen` / `pyop` streams)
+    `N` | `b0` `b1` | `i<int>` | `u<cp>,<cp>,…` (a string as decimal code points; `u` = empty) |
+    `P<a>&<b>` (a pair) | `L<v>;<v>;…` (a tuple/list; `L` = empty) -/
+section StageT
+open Nb.Py
+
+def parseU? (r : List Char) : Option String :=
+  if r.isEmpty then some ""
+  else (((String.ofList r).splitOn ",").mapM (fun (t : String) => t.toNat?)).map fun l => String.ofList (l.map Char.ofNat)
+
+def parseAtom? (s : String) : Option V :=
+  match s.toList with
+  | ['N'] => some .none
+  | ['b', '0'] => some (.bool false)
+  | ['b', '1'] => some (.bool true)
+  | 'i' :: r => (String.ofList r).toInt?.map V.int
+  | 'u' :: r => (parseU? r).map V.str
+  | _ => none
+
+def parseItem? (s : String) : Option V :=
+  match s.toList with
+  | 'P' :: r =>
+      match (String.ofList r).splitOn "&" with
+      | [a, b] => do pure (V.tup2 (← parseAtom? a) (← parseAtom? b))
+      | _ => none
+  | _ => parseAtom? s
+
+def parseVal? (s : String) : Option V :=
+  match s.toList with
+  | 'L' :: r => if r.isEmpty then some .nil else (((String.ofList r).splitOn ";").mapM parseItem?).map V.ofList
+  | _ => parseItem? s
+
+def showU (s : String) : String := "u" ++ ",".intercalate (s.toList.map fun c => toString c.toNat)
+
+partial def showVal : V → String
+  | .none => "N"
+  | .bool b => if b then "b1" else "b0"
+  | .int i => "i" ++ toString i
+  | .str s => showU s
+  | .tup2 a b => "(" ++ showVal a ++ ";" ++ showVal b ++ ")"
+  | .tup3 a b c => "(" ++ showVal a ++ ";" ++ showVal b ++ ";" ++ showVal c ++ ")"
+  | .dict es => "{" ++ showVal es ++ "}"
+  | .nil => "()"
+  | .cons a b => "(" ++ ";".intercalate ((a :: (b.toList?.getD [])).map showVal) ++ ")"
+  | _ => "bad-value"
+
+def showRes : M V → String
+  | .ok v => showVal v
+  | .error e => showErr e
+
+def showResB : M Bool → String
+  | .ok b => if b then "b1" else "b0"
+  | .error e => showErr e
+
+open Nb.Gen.C12F in
+def handleT : List String → String
+  | ["gen", fn, a, b] =>
+      match parseVal? a, parseVal? b with
+      | some a, some b =>
+          if fn = "_endswith" then showRes (py_endswith a b)
+          else if fn = "_iendswith" then showRes (py_iendswith a b)
+          else "bad-op"
+      | _, _ => "bad-op"
+  | ["gen", "splitext_addext", a, b, c] =>
+      match parseVal? a, parseVal? b, parseVal? c with
+      | some a, some b, some c => showRes (splitext_addext a b c)
+      | _, _, _ => "bad-op"
+  | ["gen", "parse_filename", a, b, c, d] =>
+      match parseVal? a, parseVal? b, parseVal? c, parseVal? d with
+      | some a, some b, some c, some d => showRes (parse_filename a b c d)
+      | _, _, _, _ => "bad-op"
+  | ["gen", "types_filenames", a, b, c, d, e] =>
+      match parseVal? a, parseVal? b, parseVal? c, parseVal? d, parseVal? e with
+      | some a, some b, some c, some d, some e => showRes (types_filenames a b c d e)
+      | _, _, _, _, _ => "bad-op"
+  | ["pyop", op, a] =>
+      match parseVal? a with
+      | some a =>
+          if op = "lower" then showRes (V.strLower a)
+          else if op = "upper" then showRes (V.strUpper a)
+          else if op = "len" then showRes (V.lenS a)
+          else if op = "splitext" then showRes (V.osPathSplitext a)
+          else if op = "isstr" then (if V.isStr a then "b1" else "b0")
+          else if op = "truthy" then showResB (V.truthy a)
+          else "bad-op"
+      | none => "bad-op"
+  | ["pyop", op, a, b] =>
+      match parseVal? a, parseVal? b with
+      | some a, some b =>
+          if op = "endswith" then showRes (V.strEndswith a b)
+          else if op = "rfind" then showRes (V.strRfind a b)
+          else if op = "strip" then showRes (V.strStrip a b)
+          else if op = "removesuffix" then showRes (V.strRemovesuffix a b)
+          else if op = "add" then showRes (V.addS a b)
+          else if op = "slicefrom" then showRes (V.sliceFrom a b)
+          else if op = "sliceto" then showRes (V.sliceTo a b)
+          else if op = "callstr1" then showRes (V.callStr1 a b)
+          else if op = "eq" then (if V.pyEq a b then "b1" else "b0")
+          else "bad-op"
+      | _, _ => "bad-op"
+  | _ => "bad-op"
+
+end StageT
+
 def handle : List String → String
+  | "gen" :: rest => handleT ("gen" :: rest)
+  | "pyop" :: rest => handleT ("pyop" :: rest)
   | "wprog" :: kind :: ops =>
       match ops.mapM parseWOp? with
       | some p =>
